@@ -162,6 +162,7 @@ void scen_c03(mt_case * c) {
   for (int t = 0; t < G.T; t++) { G.arr_len[t] = lens[rd_below(r, 6)]; mt_desc(" %d", G.arr_len[t]); }
   mt_desc("\n");
   mt_hash(c->prog.p, c->prog.pos);
+  mt_allow_prelude = 1;
   mt_lib_start(c, &e, 0);
   mv_set_point_observer(align_observer);
   MT_DIRTY(G.m); MT_DIRTY(G.cv); MT_DIRTY(G.bar); MT_DIRTY(G.jc); MT_DIRTY(G.un);
